@@ -411,6 +411,19 @@ pub fn run(rep: &mut Report) {
         }
     }
     if thorough {
+        // all ordered triples over six representative operations: plain reply, reply indexed by the
+        // argument, acknowledged / fire-and-forget, reply with payload, reply with a descriptor, the
+        // descriptor-carrying SET_LOG_BASE
+        let rep6 = [FeOp::GetFeatures, FeOp::GetVringBase(1), FeOp::SetVringNum(0, 128), FeOp::GetConfig(0x100, 8, 0), FeOp::GetInflightFd(0x1000, 0x0, 2, 256), FeOp::SetLogBase(0x1000, Some((0x1000, 0x0)))];
+        for nr in [false, true] {
+            for a in &rep6 {
+                for b in &rep6 {
+                    for c in &rep6 {
+                        scs.push(Sc10 { calls: vec![Call::Fe(a.clone()), Call::Fe(b.clone()), Call::Fe(c.clone())], need_reply: nr });
+                    }
+                }
+            }
+        }
         for (a, b, c) in [(0, 9, 13), (0, 6, 14), (9, 9, 17), (6, 8, 0), (5, 0, 9), (21, 20, 27)] {
             scs.push(Sc10 { calls: vec![Call::Fe(fe_ops[a].clone()), Call::Fe(fe_ops[b].clone()), Call::Fe(fe_ops[c].clone())], need_reply: true });
         }
